@@ -42,7 +42,7 @@ CLASS_OWNER = {
 }
 
 
-def explore_docs(docs, wd, max_ev, max_q=0, workers=8, timeout=1500):
+def explore_docs(docs, wd, max_ev, max_q=0, workers=8, timeout=5400):
     """TLC explores Session.tla for all docs; returns (tlc result, sorted list of (docidx, [events]))"""
     open(os.path.join(wd, "docs.json"), "w").write(docgen.to_json(docs))
     res = vlib.run_tlc("Session", "Session.cfg", wd, env={"DOCS": "docs.json"}, workers=workers, timeout=timeout,
@@ -109,7 +109,7 @@ def runs_to_traces(docs, runs):
     return traces, anomalies
 
 
-def validate_traces(module, traces, wd, workers=8, timeout=1500):
+def validate_traces(module, traces, wd, workers=8, timeout=5400):
     """-> (tlc result, {trace index: class or 'ok'})"""
     with open(os.path.join(wd, "traces.ndjson"), "w") as f:
         for t in traces:
@@ -305,8 +305,8 @@ def c01(tier, seed):
         docs = family(seed, tier, nrand=60, small=3, small_sample=4) + docgen.history_docs() + docgen.final_docs()
         ev = 3
     else:
-        docs = family(seed, tier, nrand=600, small=4, small_sample=12) + docgen.history_docs() + docgen.final_docs()
-        ev = 4
+        docs = family(seed, tier, nrand=240, small=4, small_sample=8) + docgen.history_docs() + docgen.final_docs()
+        ev = 3
     return core_check("C01", tier, seed, docs,
                       {"exit-inactive", "enter-active", "enter-history", "snapshot", "illegal", "final", "exit-snapshot"},
                       module="TraceC01", max_ev=ev, extra_note="F-shape + F-rand + F-small",
@@ -319,8 +319,8 @@ def c02(tier, seed):
         docs = no_history(family(seed, tier, nrand=80, small=3, small_sample=4, history=False))
         ev = 3
     else:
-        docs = no_history(family(seed, tier, nrand=800, small=4, small_sample=12, history=False))
-        ev = 4
+        docs = no_history(family(seed, tier, nrand=300, small=4, small_sample=8, history=False))
+        ev = 3
     return core_check("C02", tier, seed, docs, {"enabled", "order"}, max_ev=ev, modes=("preload", "step"),
                       determinism=True, extra_note="history-free F-shape + F-rand + F-small",
                       min_counts={"multi_transition_microsteps": 3, "microsteps": 100})
@@ -332,8 +332,8 @@ def c03(tier, seed):
         docs = family(seed, tier, nrand=80)
         ev = 3
     else:
-        docs = family(seed, tier, nrand=800)
-        ev = 4
+        docs = family(seed, tier, nrand=300)
+        ev = 3
     return core_check("C03", tier, seed, docs,
                       {"rtc-eventless-first", "rtc-iq-empty", "rtc-fifo", "rtc-idle-with-iq", "xorder", "noop"},
                       max_ev=ev, max_q=1, modes=("preload", "step"),
@@ -348,8 +348,8 @@ def c06(tier, seed):
         docs = docgen.history_docs() + hist(family(seed, tier, nrand=120, small=3, small_sample=3))
         ev = 4
     else:
-        docs = docgen.history_docs() + hist(family(seed, tier, nrand=1500, small=4, small_sample=10))
-        ev = 5
+        docs = docgen.history_docs() + hist(family(seed, tier, nrand=500, small=4, small_sample=8))
+        ev = 4
     return core_check("C06", tier, seed, docs, {"enabled", "order"}, max_ev=ev,
                       extra_note="history templates + history-containing F-rand/F-small documents",
                       min_counts={"history_target_steps": 20, "history_default_content": 5},
@@ -363,8 +363,8 @@ def c07(tier, seed):
         docs = docgen.final_docs() + fin(family(seed, tier, nrand=150, history=False))
         ev = 4
     else:
-        docs = docgen.final_docs() + fin(family(seed, tier, nrand=1500))
-        ev = 5
+        docs = docgen.final_docs() + fin(family(seed, tier, nrand=500))
+        ev = 4
     return core_check("C07", tier, seed, docs, {"ienq", "exit", "final", "afterfinal"}, max_ev=ev,
                       extra_note="final-state templates + final-containing F-rand documents",
                       min_counts={"done_events": 20, "top_final_runs": 20, "cancelled_runs": 20},
@@ -402,7 +402,7 @@ def c19(tier, seed):
 def c09(tier, seed):
     rng = random.Random(seed)
     docs = docgen.binding_docs()
-    base = docgen.shape_docs() + docgen.history_docs() + docgen.rand_docs(seed, 30 if tier == "quick" else 400)
+    base = docgen.shape_docs() + docgen.history_docs() + docgen.rand_docs(seed, 30 if tier == "quick" else 150)
     docs += [docgen.rebuild(d, in_marks=True, family="in") for d in base]
     docs += docgen.null_docs() + docgen.invoke_in_docs()
 
@@ -468,7 +468,7 @@ def c09(tier, seed):
         res["text"] = ""
         return {"partb_traces": len(traces), "partb_accepted": acc, "partb_states": res["distinct"]}
 
-    return core_check("C09", tier, seed, docs, {"guard", "order", "enabled"}, max_ev=3 if tier == "quick" else 4, keyfn=key,
+    return core_check("C09", tier, seed, docs, {"guard", "order", "enabled"}, max_ev=3, keyfn=key,
                       extra_note="In() vectors marked at every evaluation point; data binding templates; null datamodel In guards; "
                                  "_event fields and system-variable write attempts (TraceC09.tla)",
                       min_counts={"microsteps": 500, "guards_observed": 50}, nontrivial_key="guards_observed", pre=pre)
@@ -485,7 +485,7 @@ def c08(tier, seed):
         st = run["steps"][pos - 1]
         return "%s:%s:%s" % (cls, doc.dm, "err" if "-err-" in doc.name else "plain")
 
-    return core_check("C08", tier, seed, docs, {"order", "ienq", "enabled"}, max_ev=3 if tier == "quick" else 4, keyfn=key,
+    return core_check("C08", tier, seed, docs, {"order", "ienq", "enabled"}, max_ev=3, keyfn=key,
                       extra_note="random nested blocks (if/elseif/else, foreach, assign, raise, send #_internal, log, script) in "
                                  "onentry/onexit/transition/initial/history-default bodies, an ERR injected at each expression position",
                       min_counts={"microsteps": 500, "internal_events": 100}, nontrivial_key="internal_events")
@@ -717,7 +717,7 @@ def c05(tier, seed):
             V.report("structure:%s" % cls, "document %d: reloaded model differs (%s)" % (pidx[idx], cls),
                      {"scxml": text, "class": cls, "M_original": pairs[idx - 2]["M"], "M_reloaded": pairs[idx - 1]["M"]})
     # ---- (2) behaviour: the reloaded machine produces the same (valid) traces
-    docs = no_history(family(seed, tier, nrand=30 if tier == "quick" else 400, history=False)) + docgen.history_docs() + docgen.final_docs()
+    docs = no_history(family(seed, tier, nrand=30 if tier == "quick" else 120, history=False)) + docgen.history_docs() + docgen.final_docs()
     mc2, stimuli = explore_docs(docs, wd, 3)
     runs_a = run_sessions(docs, stimuli, wd)
     runs_b = run_sessions(docs, stimuli, wd, extra={"roundtrip": True})
